@@ -385,36 +385,101 @@ def copy(x):
 
 
 class AbstractSeq:
-    """a sequence of symbolic length: only its end points are known; iterating it requires a loop contract (T4)."""
+    """a sequence of symbolic length: its end points (where known), its length (where known) and a rule for the element at a given index.  Iterating it requires
+    a loop contract (T4).  Slices [s:] / [:-t] and element-wise arithmetic give abstract sequences again (x[1:] - x[:-1] is the sequence of the differences)."""
 
-    def __init__(self, first, last, what="geomspace"):
+    def __init__(self, first, last, what="geomspace", elem=None, length=None):
         self.first, self.last, self.what = first, last, what
+        self._elem, self.length = elem, length
+
+    def _interior(self, i):
+        if self._elem is not None:
+            return self._elem(i)
+        if isinstance(self.first, Sym) and isinstance(self.last, Sym) and self.first.n == self.last.n:
+            return self.first      # geomspace(a, a, k)[i] = a
+        if isinstance(self.first, Sym) and isinstance(self.last, Sym):
+            _used(f"np.{self.what} with symbolic length: interior elements are uninterpreted functions of (first, last, index)")
+            return T.app(f"{self.what}_element", self.first, self.last, T.lift(i))
+        raise Unsupported(f"element {i} of an abstract {self.what} sequence")
 
     def __getitem__(self, i):
         if isinstance(i, slice):
-            return AbstractSeq(self.first if i.start in (None, 0) else None, self.last if i.stop is None else None, self.what)
+            if i.step not in (None, 1) or (i.start is not None and (not isinstance(i.start, int) or i.start < 0)) or (i.stop is not None and (not isinstance(i.stop, int) or i.stop >= 0)):
+                raise Unsupported(f"slice {i} of an abstract {self.what} sequence")
+            s0, t0 = i.start or 0, -(i.stop or 0)
+            return AbstractSeq(self.first if s0 == 0 else None, self.last if t0 == 0 else None, self.what, elem=(lambda k, s0=s0: self[k + s0]) if s0 else (lambda k: self[k]),
+                               length=None if self.length is None else self.length - s0 - t0)
         if isinstance(i, Sym) and i.is_const():
             i = int(i.const())
         if isinstance(i, int) and i == 0 and self.first is not None:
             return self.first
         if isinstance(i, int) and i == -1 and self.last is not None:
             return self.last
-        if isinstance(self.first, Sym) and isinstance(self.last, Sym) and self.first.n == self.last.n:
-            return self.first      # geomspace(a, a, k)[i] = a
-        if isinstance(i, Sym) and isinstance(self.first, Sym) and isinstance(self.last, Sym):
-            _used(f"np.{self.what} with symbolic length: interior elements are uninterpreted functions of (first, last, index)")
-            return T.app(f"{self.what}_element", self.first, self.last, i)
-        raise Unsupported(f"element {i} of an abstract {self.what} sequence")
+        if isinstance(i, int) and i < 0:
+            raise Unsupported(f"element {i} of an abstract {self.what} sequence")
+        return self._interior(i)
 
     def __iter__(self):
         raise Unsupported(f"iteration over an abstract {self.what} sequence without a loop contract")
+
+    def __vclen__(self):
+        if self.length is None:
+            raise Unsupported(f"length of an abstract {self.what} sequence")
+        return self.length
+
+    def _map2(self, other, op, swap=False):
+        f = (lambda x, y: op(y, x)) if swap else op
+        if isinstance(other, AbstractSeq):
+            if self.length is not None and other.length is not None:
+                from . import poly as _P
+
+                if not _P.prove_zero(T.lift(self.length) - T.lift(other.length))[0]:
+                    raise Unsupported(f"element-wise operation on abstract sequences of different lengths ({self.length}, {other.length})")
+            both = lambda a, b: None if a is None or b is None else norm(f(a, b))  # noqa: E731
+            return AbstractSeq(both(self.first, other.first), both(self.last, other.last), self.what, elem=lambda k: norm(f(self[k], other[k])), length=self.length if self.length is not None else other.length)
+        if isinstance(other, _np.ndarray) or isinstance(other, (list, tuple)):
+            raise Unsupported(f"operation between an abstract {self.what} sequence and a concrete array")
+        one = lambda a: None if a is None else norm(f(a, other))  # noqa: E731
+        return AbstractSeq(one(self.first), one(self.last), self.what, elem=lambda k: norm(f(self[k], other)), length=self.length)
+
+    def __add__(self, o):
+        return self._map2(o, lambda x, y: x + y)
+
+    def __radd__(self, o):
+        return self._map2(o, lambda x, y: x + y, swap=True)
+
+    def __sub__(self, o):
+        return self._map2(o, lambda x, y: x - y)
+
+    def __rsub__(self, o):
+        return self._map2(o, lambda x, y: x - y, swap=True)
+
+    def __mul__(self, o):
+        return self._map2(o, lambda x, y: x * y)
+
+    def __rmul__(self, o):
+        return self._map2(o, lambda x, y: x * y, swap=True)
+
+    def __truediv__(self, o):
+        return self._map2(o, lambda x, y: _vcdiv(x, y))
+
+    def __rtruediv__(self, o):
+        return self._map2(o, lambda x, y: _vcdiv(x, y), swap=True)
+
+    def __neg__(self):
+        return self._map2(-1, lambda x, y: x * y)
+
+    def _no_arithmetic(self, *a, **k):
+        raise Unsupported(f"this array operation on an abstract {self.what} sequence (symbolic length) is outside the engine's model")
+
+    __pow__ = __matmul__ = __rmatmul__ = _no_arithmetic
 
 
 def geomspace(a, b, num=50, **k):
     _used("np.geomspace(a,b,k)[i] = a (b/a)^(i/(k-1)) with exact endpoints")
     if isinstance(num, Sym) and not num.is_const():
         _used("np.geomspace with symbolic length: abstract sequence with first = a, last = b")
-        return AbstractSeq(norm(a), norm(b))
+        return AbstractSeq(norm(a), norm(b), length=num)
     num = int(num)
     a, b = norm(a), norm(b)
     out = _np.empty(num, dtype=object)
